@@ -348,6 +348,7 @@ def run(repo: Repo, rep: Report) -> None:
            "identical" if same else "the two in-memory stores' bind() differ: %s" % [
                (a, b) for a, b in zip(bodies["Memory"], bodies["SimpleMemory"]) if a != b][:2], node=mem.func("Memory.bind"))
     memo_tuple_coherence(repo, rep)
+    shared_manager_rule(repo, rep)
 
 
 def memo_tuple_coherence(repo: Repo, rep: Report) -> None:
@@ -390,3 +391,35 @@ def memo_tuple_coherence(repo: Repo, rep: Report) -> None:
                 ok = tg == [N, L]
                 rep.ob("C17.f-memo-tuple-coherent", ns, "NamespaceManager." + mname, sp, ok,
                        "namespace and local name of the tuple come from one split" if ok else "split_uri unpacks into %s but the tuple returns (%s, %s)" % (tg, N, L), node=sp)
+
+
+def shared_manager_rule(repo: Repo, rep: Report) -> None:
+    gm = repo.mod("rdflib.graph")
+    ns = repo.mod("rdflib.namespace")
+    rep.rule("C17.g-views-share-one-manager",
+             "every Graph view that ConjunctiveGraph/Dataset create on their own store is given namespace_manager=self.namespace_manager, so there is "
+             "one qname memo per store and a bind through any view invalidates it for all", floor=1)
+    n = 0
+    for cls in ("ConjunctiveGraph", "Dataset"):
+        for mname, f in gm.methods(cls).items():
+            for c in own_nodes(f):
+                if isinstance(c, ast.Call) and norm(c.func) == "Graph" and any(k.arg == "store" and norm(k.value) == "self.store" for k in c.keywords):
+                    n += 1
+                    ok = any(k.arg == "namespace_manager" and norm(k.value) == "self.namespace_manager" for k in c.keywords)
+                    rep.ob("C17.g-views-share-one-manager", gm, "%s.%s" % (cls, mname), c, ok,
+                           "shares the dataset's manager" if ok else "the view gets a NamespaceManager of its own: its qname memo is not invalidated by binds made through the dataset (and vice versa)", node=c)
+    if n == 0:
+        raise AnalysisError("no Graph(store=self.store, ...) view construction found in ConjunctiveGraph/Dataset")
+    # normalizeUri joins prefix and local name of ONE compute_qname result
+    f = ns.func("NamespaceManager.normalizeUri")
+    joins = [c for c in ast.walk(f) if isinstance(c, ast.Call) and isinstance(c.func, ast.Attribute) and c.func.attr == "join" and c.args and isinstance(c.args[0], ast.List)]
+    for j in joins:
+        elts = j.args[0].elts
+        roots = {norm(e.value) if isinstance(e, ast.Subscript) else norm(e) for e in elts}
+        src_ok = len(roots) == 1 and all(isinstance(e, ast.Subscript) for e in elts)
+        if src_ok:
+            var = next(iter(roots))
+            src_ok = any(isinstance(a, ast.Assign) and norm(a.targets[0]) == var and isinstance(a.value, ast.Call) and "compute_qname" in norm(a.value.func) for a in own_nodes(f))
+        rep.ob("C17.f-memo-tuple-coherent", ns, "NamespaceManager.normalizeUri", j, src_ok,
+               "prefix and local name come from one compute_qname() result" if src_ok else
+               "the qname is assembled from parts of different computations (%s): the prefix may belong to a shorter namespace than the one the local name was cut from" % sorted(roots), node=j)
